@@ -43,7 +43,7 @@ AbsOut(lo) ==
 
 \* ---- field-level guards on the concrete response (C16, C17) -----------------
 FieldGuards == {"G_C16_OneResponse", "G_C16_TypeMatches", "G_C16_WellFormed", "G_C17_AdvertiseEcho",
-                "G_C16_AuthPolicyFields", "G_C01_OneDial", "G_C03_DialIsRequest"}
+                "G_C16_AuthPolicyFields", "G_C01_OneDial", "G_C03_DialIsRequest", "G_C03_OnlyTheRequestedAddress"}
 
 FieldHolds(g, c, p, lp, lo) ==
   LET n == Len(lo.resps)
@@ -58,6 +58,14 @@ FieldHolds(g, c, p, lp, lo) ==
          (n >= 1 /\ p.k = "auth" /\ r.pt = 7 /\ r.status = S_OK) =>
             (r.fields = 3 /\ r.redir = RedirFlags(c.redir) /\ r.idle = IdleOf(c.idle))
     [] g = "G_C01_OneDial" -> Len(lo.dials) <= 1
+    \* what the loopback hosts themselves saw: whoever accepted a connection during this step is the requested endpoint
+    \* (a name that resolves - localhost, or no name at all - is the loopback address with the requested port)
+    [] g = "G_C03_OnlyTheRequestedAddress" ->
+         (p.k # "chan" \/ p.cls = "valid") => \A i \in 1..Len(lo.hostconns) :
+            /\ p.k = "chan"
+            /\ LET hc == lo.hostconns[i]
+                    want == Pol!Join(lp.pol.name, lp.pol.port) IN
+                hc = want \/ (Pol!StripNul(lp.pol.name) \in {<<"HL">>, <<>>} /\ hc[Len(hc)] = lp.pol.port)
     [] g = "G_C03_DialIsRequest" ->
          (p.k = "chan" /\ p.cls = "valid") => \A i \in 1..Len(lo.dials) : lo.dials[i] = Pol!Join(lp.pol.name, lp.pol.port)
 
